@@ -22,6 +22,12 @@ PROP = dict(
         "module root; module root at several levels or absent; marker script at EVERY directory level from '/' downwards",
         "import graphs: 2-7 scripts, DAGs, diamonds, several spellings of one file, cycles of length 1-4 (also through the main script); "
         "observable = outcome AND the set of files opened (the model traces afero.ReadFile in compile order)",
+        "script contents: constant tuple + import list, optionally a reference to a name (`f: base`, `f: x`, `f: .`) and a binder around "
+        "the body (let / function parameter / arrow). In 2 of 5 graph and nested layouts one script is an OPEN term while every other "
+        "script (its importers, by different spellings) binds that name to a different value; in 1 of 5 all scripts carry binders but "
+        "are closed. Spec: imported code is evaluated in a scope holding only `//`, so an open script fails whatever the importers "
+        "bind, and binders of importers never change an imported value. This evaluation-scope part rests on the correspondence run "
+        "(the Lean graph model abstracts evaluation: `compile` yields the unfolding; the generator's value function is applied to it)",
         "nested modules (quick: 200 layouts x 2): go.mod at the base and/or at 1-2 nested directories, the same relative names "
         "(data/lib/util) with different contents in all 5 directories, module-rooted imports issued at every depth including "
         "directly in a nested root, 2-5 imports per main script evaluated in BOTH orders so that root-cache entries of an earlier "
